@@ -65,6 +65,10 @@ func (x *Exec) callWithArgs(fr *frame, cc *ssa.CallCommon, fnv sval, args []sval
 			callee = fnv.clo.fn
 		}
 		if callee == nil {
+			// "var f func(..); f = func(..) { .. f() .. }": the cell is stored once, with a closure
+			callee = x.eng.resolveFuncValue(cc.Value)
+		}
+		if callee == nil {
 			x.note("call of unknown function value in " + fr.fn.String())
 			x.curTaint = true
 			if x.errflow {
@@ -360,6 +364,14 @@ func (x *Exec) contractEnv(ct *Contract, callee *ssa.Function, args []sval, argT
 			if i < len(fnv.clo.bindings) {
 				b := fnv.clo.bindings[i]
 				env.vars[fv.Name()] = TVal{T: b.t, Sort: x.so.sortOf(fv.Type()), Ty: fv.Type()}
+			}
+		}
+	}
+	if callee != nil && len(callee.FreeVars) > 0 && fnv.clo == nil && callee == x.fn {
+		// self-recursion of the closure under verification: same captured cells
+		for _, fv := range callee.FreeVars {
+			if tv, ok := x.paramEnv[fv.Name()]; ok {
+				env.vars[fv.Name()] = tv
 			}
 		}
 	}
@@ -835,6 +847,10 @@ func (x *Exec) inferredFieldFrames(ws *WriteSet, old, nw *State, reach string) {
 		o, n := old.get(c), nw.get(c)
 		if o != n {
 			x.fieldFrame(ws, c, o, n, old.na, reach)
+			if !ws.Old[c] && !strings.HasPrefix(c, "H_") && strings.HasPrefix(x.so.comps[c], "(Array Int ") {
+				// only fresh rows were written: every row that existed is unchanged
+				x.assume(reach, "(forall ((r! Int)) (! (=> (and (< 0 r!) (< r! "+old.na+")) (= (select "+n+" r!) (select "+o+" r!))) :pattern ((select "+n+" r!))))")
+			}
 		}
 	}
 }
@@ -993,9 +1009,22 @@ type WriteSet struct {
 	// pre-existing objects that may be stored to; "*" = any field.  A struct
 	// component in Comps without an entry here is only allocated into.
 	Fields map[string]map[string]bool
+	// Old: array-like components (BM, E_…, C_…) of which a row that existed before the
+	// call may be written; a component in Comps but not in Old only receives fresh rows
+	// (make, append's new backing array, conversions, local arrays).
+	Old map[string]bool
 }
 
 func (w *WriteSet) add(c string) {
+	w.addFresh(c)
+	if w.Old == nil {
+		w.Old = map[string]bool{}
+	}
+	w.Old[c] = true
+}
+
+// addFresh: c only receives rows/objects allocated during the call
+func (w *WriteSet) addFresh(c string) {
 	if w.Comps == nil {
 		w.Comps = map[string]bool{}
 	}
@@ -1018,7 +1047,11 @@ func (w *WriteSet) merge(o *WriteSet) {
 		w.Top = true
 	}
 	for c := range o.Comps {
-		w.add(c)
+		if o.Old[c] {
+			w.add(c)
+		} else {
+			w.addFresh(c)
+		}
 	}
 	for c, fs := range o.Fields {
 		for f := range fs {
@@ -1073,7 +1106,19 @@ func (e *Engine) contractWrites(x *Exec, ct *Contract) *WriteSet {
 			body := strings.TrimSuffix(m, "[*]")
 			if i := strings.LastIndex(body, "."); i > 0 {
 				if t := e.lookupType(body[:i], pkg); t != nil {
-					ws.addField(x.so.structComp(t), "*")
+					comp := x.so.structComp(t)
+					fld := "*"
+					if fn := body[i+1:]; fn != "*" {
+						acc := strings.TrimPrefix(comp, "H_") + "_" + fn
+						if si := x.so.structs[strings.TrimPrefix(comp, "H_")]; si != nil {
+							for _, f := range si.Fields {
+								if f.Acc == acc {
+									fld = acc
+								}
+							}
+						}
+					}
+					ws.addField(comp, fld)
 					continue
 				}
 			}
@@ -1085,16 +1130,16 @@ func (e *Engine) contractWrites(x *Exec, ct *Contract) *WriteSet {
 	}
 	for _, a := range ct.Allocates {
 		if a == "BM" {
-			ws.add("BM")
+			ws.addFresh("BM")
 			continue
 		}
 		if strings.HasPrefix(a, "comp:") {
-			ws.add(strings.TrimPrefix(a, "comp:"))
+			ws.addFresh(strings.TrimPrefix(a, "comp:"))
 			continue
 		}
 		if t := e.lookupType(a, pkg); t != nil {
 			if _, ok := t.Underlying().(*types.Struct); ok {
-				ws.add(x.so.structComp(t))
+				ws.addFresh(x.so.structComp(t))
 			}
 		}
 	}
@@ -1117,7 +1162,19 @@ func (e *Engine) contractWrites(x *Exec, ct *Contract) *WriteSet {
 			out.Top = true
 			x.note("cannot resolve modifies location statically: " + expr + " of " + ct.Key)
 		} else if strings.HasPrefix(comp, "H_") {
-			out.addField(comp, "*")
+			// x.f names one field of the object; anything else (a whole object) all of them
+			fld := "*"
+			if i := strings.LastIndex(expr, "."); i > 0 && !strings.ContainsAny(expr[i+1:], "[]()* ") {
+				acc := strings.TrimPrefix(comp, "H_") + "_" + expr[i+1:]
+				if si := x.so.structs[strings.TrimPrefix(comp, "H_")]; si != nil {
+					for _, f := range si.Fields {
+						if f.Acc == acc {
+							fld = acc
+						}
+					}
+				}
+			}
+			out.addField(comp, fld)
 		} else {
 			out.add(comp)
 		}
@@ -1331,6 +1388,17 @@ func (e *Engine) writeSet(fn *ssa.Function) *WriteSet {
 	delete(e.wsBusy, fn)
 	// a second pass settles recursion (self-calls contributed nothing the first time)
 	e.wsMemo[fn] = ws
+	if d := os.Getenv("GOVC_WS_DUMP"); d != "" && strings.Contains(fn.String(), d) {
+		fmt.Fprintf(os.Stderr, "ws-dump %s: top=%v comps=%v\n", fn.String(), ws.Top, ws.sorted())
+		for c, fs := range ws.Fields {
+			var names []string
+			for f := range fs {
+				names = append(names, f)
+			}
+			sort.Strings(names)
+			fmt.Fprintf(os.Stderr, "   %s: %v\n", c, names)
+		}
+	}
 	return ws
 }
 
@@ -1367,12 +1435,21 @@ func (e *Engine) scanWrites(fn *ssa.Function, blocks []*ssa.BasicBlock) *WriteSe
 				return
 			}
 		case *ssa.IndexAddr:
+			fresh := freshLocalSlice(a.X, 0)
 			switch u := a.X.Type().Underlying().(type) {
 			case *types.Slice:
-				ws.add(so.elemComp(u.Elem()))
+				if fresh {
+					ws.addFresh(so.elemComp(u.Elem()))
+				} else {
+					ws.add(so.elemComp(u.Elem()))
+				}
 			case *types.Pointer:
 				if at, ok := u.Elem().Underlying().(*types.Array); ok {
-					ws.add(so.elemComp(at.Elem()))
+					if fresh {
+						ws.addFresh(so.elemComp(at.Elem()))
+					} else {
+						ws.add(so.elemComp(at.Elem()))
+					}
 				}
 			}
 		case *ssa.Global:
@@ -1420,14 +1497,14 @@ func (e *Engine) scanWrites(fn *ssa.Function, blocks []*ssa.BasicBlock) *WriteSe
 				}
 				switch u := et.Underlying().(type) {
 				case *types.Struct:
-					ws.add(so.structComp(et))
+					ws.addFresh(so.structComp(et))
 				case *types.Array:
-					ws.add(so.elemComp(u.Elem()))
+					ws.addFresh(so.elemComp(u.Elem()))
 				default:
-					ws.add(so.cellComp(et))
+					ws.addFresh(so.cellComp(et))
 				}
 			case *ssa.MakeSlice:
-				ws.add(so.elemComp(t.Type().Underlying().(*types.Slice).Elem()))
+				ws.addFresh(so.elemComp(t.Type().Underlying().(*types.Slice).Elem()))
 			case *ssa.MakeMap:
 				mv, mp := so.mapComp(t.Type().Underlying().(*types.Map))
 				ws.add(mv)
@@ -1438,7 +1515,7 @@ func (e *Engine) scanWrites(fn *ssa.Function, blocks []*ssa.BasicBlock) *WriteSe
 				ws.add(mp)
 			case *ssa.Convert:
 				if so.sortOf(t.Type()) == "Slice" && so.sortOf(t.X.Type()) == "Slice" {
-					ws.add("BM")
+					ws.addFresh("BM")
 					so.elemComp(types.Typ[types.Uint8])
 				}
 			case *ssa.Go, *ssa.Send, *ssa.Select:
@@ -1448,9 +1525,18 @@ func (e *Engine) scanWrites(fn *ssa.Function, blocks []*ssa.BasicBlock) *WriteSe
 				cc := t.Common()
 				if bi, ok := cc.Value.(*ssa.Builtin); ok {
 					switch bi.Name() {
-					case "append", "copy":
+					case "append":
+						// modelled as always copying into a fresh backing array
 						if sl, ok := cc.Args[0].Type().Underlying().(*types.Slice); ok {
-							ws.add(so.elemComp(sl.Elem()))
+							ws.addFresh(so.elemComp(sl.Elem()))
+						}
+					case "copy":
+						if sl, ok := cc.Args[0].Type().Underlying().(*types.Slice); ok {
+							if freshLocalSlice(cc.Args[0], 0) {
+								ws.addFresh(so.elemComp(sl.Elem()))
+							} else {
+								ws.add(so.elemComp(sl.Elem()))
+							}
 						}
 					case "delete":
 						mv, mp := so.mapComp(cc.Args[0].Type().Underlying().(*types.Map))
@@ -1517,6 +1603,7 @@ func (e *Engine) scanWrites(fn *ssa.Function, blocks []*ssa.BasicBlock) *WriteSe
 				}
 				if ct != nil {
 					cw := e.contractWrites(x, ct)
+					e.refineFreshArgs(cw, ct, cc)
 					ws.merge(cw)
 					if cw.Top {
 						e.wsWhy(fn, "contract with unresolved/unbounded modifies: "+key)
@@ -1760,4 +1847,84 @@ func callsiteName(cc *ssa.CallCommon) string {
 
 func callsiteMatch(target, name string) bool {
 	return name != "" && (target == name || (!strings.HasPrefix(target, "param:") && !strings.HasPrefix(target, "freevar:") && strings.Contains(name, target)))
+}
+
+
+// freshLocalSlice: v is (a slice of) an array or slice that this very function
+// allocated (local array, make, append result, conversion): writing through it
+// cannot touch a row that existed before the call.
+func freshLocalSlice(v ssa.Value, depth int) bool {
+	if depth > 6 {
+		return false
+	}
+	switch t := v.(type) {
+	case *ssa.Alloc:
+		_, isArr := t.Type().(*types.Pointer).Elem().Underlying().(*types.Array)
+		return isArr
+	case *ssa.MakeSlice:
+		return true
+	case *ssa.Slice:
+		return freshLocalSlice(t.X, depth+1)
+	case *ssa.Convert:
+		return true
+	case *ssa.Call:
+		if b, ok := t.Call.Value.(*ssa.Builtin); ok && b.Name() == "append" {
+			return true
+		}
+	case *ssa.Phi:
+		for _, e := range t.Edges {
+			if !freshLocalSlice(e, depth+1) {
+				return false
+			}
+		}
+		return len(t.Edges) > 0
+	}
+	return false
+}
+
+
+// refineFreshArgs: a contract that modifies only `p[*]` for slice parameters p
+// writes fresh rows only when every such actual argument is a slice of memory
+// the calling function allocated itself.
+func (e *Engine) refineFreshArgs(cw *WriteSet, ct *Contract, cc *ssa.CallCommon) {
+	if cw.Top {
+		return
+	}
+	params := ct.Params
+	args := cc.Args
+	if cc.IsInvoke() {
+		// contract parameters include the receiver first
+		if len(params) > 0 {
+			params = params[1:]
+		}
+	}
+	for _, m := range ct.Modifies {
+		m = strings.TrimSpace(m)
+		if !strings.HasSuffix(m, "[*]") {
+			// something other than slice contents: leave the set as it is, unless it is a ghost or a field
+			g := m
+			if i := strings.Index(m, "["); i > 0 {
+				g = m[:i]
+			}
+			if _, ok := e.ghosts[g]; ok || strings.Contains(m, ".") {
+				continue
+			}
+			return
+		}
+		name := strings.TrimSuffix(m, "[*]")
+		idx := -1
+		for i, p := range params {
+			if p == name {
+				idx = i
+			}
+		}
+		if idx < 0 || idx >= len(args) || !freshLocalSlice(args[idx], 0) {
+			return
+		}
+	}
+	for c := range cw.Old {
+		if !strings.HasPrefix(c, "H_") && !strings.HasPrefix(c, "G_") {
+			delete(cw.Old, c)
+		}
+	}
 }
